@@ -49,19 +49,33 @@ func encBytes(img image.Image, o *webp.EncoderOptions) func() []byte {
 	}
 }
 
+// liveHook, when set, receives a function that re-reads an image a call has RETURNED (the live
+// object, not a copy): "images already returned are never modified by later calls" is checked by
+// reading it again after the later calls. Set and cleared by the single harness thread that owns
+// an execution; called by decPix on whichever thread runs the call (one at a time under the
+// controlled scheduler, sequentially in C11).
+var liveHook func(read func() []byte)
+
+func imageBytes(img image.Image) []byte {
+	switch m := img.(type) {
+	case *image.NRGBA:
+		return append([]byte(fmt.Sprint(m.Rect)), m.Pix...)
+	case *image.YCbCr:
+		return append(append(append([]byte(fmt.Sprint(m.Rect)), m.Y...), m.Cb...), m.Cr...)
+	}
+	return []byte(fmt.Sprintf("%T", img))
+}
+
 func decPix(data []byte) func() []byte {
 	return func() []byte {
 		img, err := webp.Decode(bytes.NewReader(data))
 		if err != nil {
 			return []byte("error: " + err.Error())
 		}
-		switch m := img.(type) {
-		case *image.NRGBA:
-			return append([]byte(fmt.Sprint(m.Rect)), m.Pix...)
-		case *image.YCbCr:
-			return append(append(append([]byte(fmt.Sprint(m.Rect)), m.Y...), m.Cb...), m.Cr...)
+		if h := liveHook; h != nil {
+			h(func() []byte { return imageBytes(img) })
 		}
-		return []byte(fmt.Sprintf("%T", img))
+		return imageBytes(img)
 	}
 }
 
@@ -250,6 +264,22 @@ func c10Exec(s *c10Scen, choose vsync.Chooser, trace bool) (results [][]byte, re
 	}
 	vsync.ResetPools()
 	results = make([][]byte, len(s.calls))
+	type live struct {
+		read func() []byte
+		dig  string
+	}
+	var lives []live
+	liveHook = func(read func() []byte) { lives = append(lives, live{read, fw.Digest(read())}) }
+	defer func() {
+		liveHook = nil
+		if res.Verdict == "" {
+			for _, l := range lives {
+				if fw.Digest(l.read()) != l.dig {
+					res.Verdict = "an image returned by one call was modified afterwards (by a concurrent call or a later step of its own call)"
+				}
+			}
+		}
+	}()
 	res = vsync.Run(choose, 400000, trace, func() {
 		if len(s.calls) == 1 {
 			results[0] = s.calls[0]()
